@@ -24,7 +24,10 @@ const (
 	bytesField
 )
 
-var ErrNonUnique = errors.New("non-unique record name")
+var (
+	ErrNonUnique     = errors.New("non-unique record name")
+	ErrInvalidRecord = errors.New("invalid record: negative field or inconsistent line lengths")
+)
 
 // Index is an FAI index.
 type Index map[string]Record
@@ -198,13 +201,18 @@ func ReadFrom(r io.Reader) (idx Index, err error) {
 		} else if _, exists := idx[rec[nameField]]; exists {
 			return nil, parseError(line, 0, ErrNonUnique)
 		}
-		idx[rec[nameField]] = Record{
+		r := Record{
 			Name:         rec[nameField],
 			Length:       mustAtoi(rec, lengthField, line),
 			Start:        mustAtoi64(rec, startField, line),
 			BasesPerLine: mustAtoi(rec, basesField, line),
 			BytesPerLine: mustAtoi(rec, bytesField, line),
 		}
+		if r.Length < 0 || r.Start < 0 || r.BasesPerLine < 0 || r.BytesPerLine < r.BasesPerLine || (r.Length > 0 && r.BasesPerLine == 0) {
+			// Positions cannot be computed from such a record.
+			return nil, parseError(line, 0, ErrInvalidRecord)
+		}
+		idx[rec[nameField]] = r
 	}
 }
 
